@@ -52,10 +52,10 @@ TIE_MODULE = T + "Ties"
 TIEQ_MODULE = T + "TiesQ"   # query-side ties (Node, Edge, From); theorems live in namespace GeomV.C19.Ties
 TIEQ_THEOREMS = ["tie_Node", "tie_Edge", "forMapAux_setIdx", "tie_From", "tie_From_mem"]
 TIER_MODULE = T + "TiesR"   # phase 4: the body of ShortestRoute (adapter from the regenerated From/Weight/costHeuristic, totals loop) = Model.shortestRoute
-TIER_THEOREMS = ["ordOf_mem", "cand_mem", "tie_adapter", "tie_totals", "tie_aStar", "tie_ShortestRoute", "tie_ShortestRoute_ok",
+TIER_THEOREMS = ["ordOf_mem", "cand_mem", "neighborIds_nodup", "cand_eq_keys", "tie_From_perm", "tie_adapter", "tie_totals", "tie_aStar", "tie_ShortestRoute", "tie_ShortestRoute_ok",
                  "tie_ShortestRoute_fault", "C19_regenerated"]
 TIE_THEOREMS = ["tie_NewNetwork", "tie_Has", "tie_newNodeID", "tie_newNode", "tie_addNode", "tie_ensureNode", "tie_AddLink",
-                "tie_Weight", "tie_costHeuristic", "tie_buildFrom", "tie_build"]
+                "tie_Weight", "tie_costHeuristic", "tie_buildFrom", "tie_build", "mapSet_keys_nodup"]
 
 
 def regen(check):
